@@ -101,14 +101,27 @@ func (fr *frame) invoke(st *PState, c *ssa.CallCommon, recv Val, args []Val, k f
 			}
 		}
 		ex.Assumed["binding:"+ShortName(key)+"=>"+ShortName(conc)] = true
-		recvT := ex.reify(st, recv, c.Value.Type())
+		recvI := ex.reify(st, recv, c.Value.Type())
 		var fsig *types.Signature
 		if f != nil {
 			fsig = f.Signature
 		} else {
-			fsig = sig
+			fsig = withRecv(sig, c.Value.Type())
 		}
-		fr.callFunction(st, qname, f, fsig, append([]Val{recvT}, args...), k)
+		// the concrete receiver behind the interface value: a reference for pointer receivers, an opaque
+		// keeper value otherwise (keepers are only used through their store wiring)
+		var recvV Val = recvI
+		if fsig.Recv() != nil {
+			rt := fsig.Recv().Type()
+			if _, isPtr := rt.Underlying().(*types.Pointer); isPtr {
+				ref := WithGo(App(SInt, "ipay", recvI), rt)
+				st.Assume(And(App(SBool, ">", ref, IntLit(0)), App(SBool, "<", ref, T{S: "REF0", Sort: SInt})))
+				recvV = ref
+			} else if _, isIface := rt.Underlying().(*types.Interface); !isIface {
+				recvV = st.FreshOf("bound_recv", rt)
+			}
+		}
+		fr.callFunction(st, qname, f, fsig, append([]Val{recvV}, args...), k)
 		return
 	}
 	// a contract stated on the interface method itself (external keepers: bank, account, ...)
@@ -128,7 +141,7 @@ func (ex *Exec) fullKey(v *ViewVal, key T) T {
 	if v.Prefix.IsZero() {
 		return key
 	}
-	return App(SBytes, "cat", v.Prefix, key)
+	return Cat(v.Prefix, key)
 }
 
 func (st *PState) kvGet(v *ViewVal, key T) T {
@@ -245,6 +258,11 @@ func (ex *Exec) nonNilFacts(x T, t types.Type, depth int, out *[]T) {
 		return
 	case SDecV:
 		*out = append(*out, Not(App(SBool, "disnil", x)))
+		return
+	case SSlice:
+		*out = append(*out, And(App(SBool, ">=", App(SInt, "slen", x), IntLit(0)), App(SBool, ">=", App(SInt, "soff", x), IntLit(0)),
+			App(SBool, ">=", App(SInt, "scap", x), App(SInt, "slen", x)), App(SBool, ">=", App(SInt, "sbase", x), IntLit(0)),
+			Implies(Eq(App(SInt, "sbase", x), IntLit(0)), Eq(App(SInt, "slen", x), IntLit(0)))))
 		return
 	}
 	if depth > 2 {
